@@ -53,6 +53,28 @@ def mutants(src, lo, hi):
     return out
 
 
+_BASE = None
+
+
+def baseline_subset_passes(junit, testfiles):
+    """every pinned baseline test of the named modules passes (the always-failing ones are ignored)"""
+    global _BASE
+    import xml.etree.ElementTree as ET
+    if _BASE is None:
+        _BASE = set(json.load(open('/root/.vp/BASELINE.json'))['stable_pass'])
+    mods = tuple('tests.' + t[:-3].replace('/', '.') for t in testfiles)
+    need = set(x for x in _BASE if x.split('::')[0].startswith(mods))
+    try:
+        t = ET.parse(junit)
+    except Exception:
+        return False
+    passed = set()
+    for tc in t.iter('testcase'):
+        if not any(c.tag in ('failure', 'error', 'skipped') for c in tc):
+            passed.add('%s::%s' % (tc.get('classname'), tc.get('name')))
+    return need <= passed
+
+
 def run_one(args):
     idx, relfile, lineno, newline, desc, testfiles, checks, jobs = args
     tmp = tempfile.mkdtemp(prefix='ms_', dir='/tmp')
@@ -77,10 +99,11 @@ def run_one(args):
         env = dict(os.environ, PYTHONPATH=os.path.join(tmp, 'src'))
         env.pop('DATEUTIL_VERIF', None)
         try:
-            r = subprocess.run(['/venv/bin/python', '-m', 'pytest', '-q', '-x', '-p', 'no:cacheprovider', '--timeout=120', '-o', 'addopts=',
-                                '-W', 'ignore'] + ['tests/' + t for t in testfiles], cwd=tmp, env=env, capture_output=True, text=True,
-                               timeout=900)
-            res['tests'] = 'pass' if r.returncode == 0 else 'fail'
+            jx = os.path.join(tmp, 'junit.xml')
+            subprocess.run(['/venv/bin/python', '-m', 'pytest', '-q', '-p', 'no:cacheprovider', '--timeout=120', '-o', 'addopts=',
+                            '-W', 'ignore', '--junitxml=' + jx] + ['tests/' + t for t in testfiles], cwd=tmp, env=env,
+                           capture_output=True, text=True, timeout=1200)
+            res['tests'] = 'pass' if baseline_subset_passes(jx, testfiles) else 'fail'
         except subprocess.TimeoutExpired:
             res['tests'] = 'fail'
         if res['tests'] != 'pass':
